@@ -86,7 +86,11 @@ func (a *statAcc) addRun(p *sdl.Program, o *model.Obs, nontrivial bool) {
 	a.pathSigs[o.PathSig] = true
 	if nontrivial {
 		a.NonTrivial++
-		a.distinct[hash64(ShapeHash(p), o.PathSig, strings.Join(o.Faults, ","))] = true
+		key := hash64(ShapeHash(p), o.PathSig, strings.Join(o.Faults, ","))
+		if len(o.CloseSnaps) != 0 {
+			key = hash64(key, fmt.Sprint(o.Picks)) // release order matters for the Close phase
+		}
+		a.distinct[key] = true
 	}
 	if o.NonCanonical > 0 {
 		a.Probes["candidate-order-non-canonical"]++
